@@ -7,6 +7,7 @@
 //!        7 concat (p = M, extra = right operand)  8 remove(p)  9 swap_remove(p)
 //!        10 remove_unchecked(p)  11 swap_remove_unchecked(p)   (only run for p < N)
 //!   kind 0 Tz (size 0, tracked; identities all 0)  1 u8  2 u64  3 [u64;3]  4 Tr (tracked)
+//!        5 Tb (ONE byte, alignment 1, tracked: a byte-sized element with a destructor)
 //! OBS:  status (0 ok | 1 bounds panic | 2 other panic), on ok the result parts
 //!       (arrays as [len, ids...]; removed value first; by-reference halves as
 //!       [byte offset from the source's first element, len, ids seen...]; for &mut additionally
@@ -24,7 +25,7 @@
 use generic_array::sequence::*;
 use generic_array::typenum::*;
 use generic_array::{ArrayLength, GenericArray};
-use harness::track::{self, Ev, Tr, Tz};
+use harness::track::{self, Ev, Tb, Tr, Tz};
 use harness::*;
 
 trait Elem: Sized {
@@ -87,6 +88,17 @@ impl Elem for Tr {
     }
     fn id(&self) -> i64 {
         self.id
+    }
+}
+
+impl Elem for Tb {
+    const KIND: i128 = 5;
+    const TRACKED: bool = true;
+    fn make(id: i64) -> Self {
+        Tb::new(id)
+    }
+    fn id(&self) -> i64 {
+        self.0 as i64
     }
 }
 
@@ -612,6 +624,7 @@ fn do_case(case: Vec<i128>) {
         1 => run::<u8>(&c),
         2 => run::<u64>(&c),
         3 => run::<[u64; 3]>(&c),
+        5 => run::<Tb>(&c),
         _ => run::<Tr>(&c),
     });
     match r {
@@ -634,7 +647,7 @@ fn do_case(case: Vec<i128>) {
 fn ids_for(kind: i128, n: usize, base: i64, rng: Option<&mut Rng>) -> Vec<i64> {
     match kind {
         0 => vec![0; n],
-        1 => match rng {
+        1 | 5 => match rng {
             // random bytes: duplicates on purpose (a misplaced element must still show)
             Some(r) => (0..n).map(|_| r.below(256) as i64).collect(),
             None => (0..n as i64).map(|i| (base + 7 * i).rem_euclid(256)).collect(),
@@ -658,7 +671,7 @@ fn ids_for(kind: i128, n: usize, base: i64, rng: Option<&mut Rng>) -> Vec<i64> {
 fn new_elem(kind: i128) -> i128 {
     match kind {
         0 => 0,
-        1 => 250,
+        1 | 5 => 250,
         _ => 900_000,
     }
 }
@@ -674,7 +687,7 @@ fn mk(op: i128, kind: i128, n: usize, p: i128, rng: &mut Option<Rng>, m: usize) 
 
 fn generate(rng: &mut Option<Rng>, small_max: usize, boundary: bool) {
     const MAX: i128 = usize::MAX as i128;
-    for kind in 0..5i128 {
+    for kind in 0..6i128 {
         let x = new_elem(kind);
         // small scope, exhaustively
         for n in 0..=small_max {
